@@ -195,5 +195,19 @@ FailedClause(sig, opt, ts, funcs, logs, by0, snaps, xprev, e) ==
   ELSE IF e.op = "setfunc" THEN "SetFuncOK"
   ELSE "UnknownOperation"
 
+---------------------------------------------------------------------------
+(* Where the options come from.  skip-ensure / stub-impl / with-resets are keys of `template-data`, which can be       *)
+(* written at four configuration levels: the top level of the config file, a package's `config`, an interface's        *)
+(* `config`, an entry of the interface's `configs` list.  "all template-data combinations" (C04's quantifier) is about *)
+(* the EFFECTIVE value a mock is generated with: per key, the most specific level that writes the key decides, an      *)
+(* explicit false as much as an explicit true; a key written nowhere is off.  A placement of ONE switch is the tuple   *)
+(* of what each level writes for it, outermost first.                                                                  *)
+PlaceLevels == <<"root", "pkg", "iface", "entry">>
+PlaceVals   == {"unset", "true", "false"}
+EffSwitch(t) == LET set == {i \in 1..Len(t) : t[i] # "unset"} IN
+                IF set = {} THEN FALSE ELSE t[CHOOSE i \in set : \A j \in set : j <= i] = "true"
+\* the option set the model is run with for a mock whose three switches are placed as pl = [skip, stub, resets |-> tuple]
+EffOpts(pl) == [skip |-> EffSwitch(pl.skip), stub |-> EffSwitch(pl.stub), resets |-> EffSwitch(pl.resets)]
+
 FuncsAfter(funcs, e) == IF e.op = "setfunc" THEN [funcs EXCEPT ![e.m] = e.f] ELSE funcs
 =============================================================================
